@@ -275,6 +275,33 @@ TIE2.update({
             '(thread, task) pair identifies the actor, numbers stable, attribution) hold of the code.',
             '; source regenerated by an ast translator, simulation proof between the regenerated code and the model'),
 })
+TIE2.update({
+    'C02': (' SECOND TIE (every run): translate/run_record.py regenerates RunInfoRegistrar, the result substitution of RunSession.run, RunningProcess.__await__/_log_exited, '
+            'the result()/format_exception() plumbing and every method of Callback (Gen/RunRecord.v; control flow from Gen/CallbackSkeleton.v, Gen/RunSkeleton.v); Life/RecordTie.v proves '
+            'for every child outcome, every exit code (negative, zero, POSITIVE) and every oracle of raising awaits: no data statement raises by itself, the run_info publications are exactly '
+            'the expected prefix of initialized, running, finished under one number (all three when no await raises), the finished record and result()/format_exception() carry THIS run\'s '
+            'outcome (empty when the process died), _run_finished is set exactly once and last on every path, awaiting the handle never raises; tied to the publications of Life/Model.v.',
+            '; run record / result plumbing regenerated, interpreter theorems over all outcomes and raising awaits'),
+    'C05': (' SECOND TIE (every run): translate/bdb_funs.py regenerates the INSTALLED CPython bdb.py (trace_dispatch, dispatch_*, stop_here, _set_stopinfo, set_*), CustomizedPdb, the cmdloop hook, '
+            'every filter with the registration order, global_trace_func and WithContext (Gen/BdbFuns.v); Bdb/Tie*.v prove each EQUAL to the corresponding function of Bdb/Model.v for all states, '
+            'frames and events, and a whole raw-event stream through the regenerated code = Model.run (C05_tie_run): every theorem about prompts transfers.',
+            '; bdb.py / CustomizedPdb / filters regenerated and proved equal to the model function by function'),
+    'C09': (' SECOND TIE (every run): translate/emitter_skeleton.py regenerates the Repeater hooks, TraceCallHandler, the keeper/mapper, the cmdloop guard, the prompt function and the counters '
+            '(Gen/EmitterSkel.v); Events/Tie.v proves that the interpreter of the regenerated trees, driven by the same programs and schedules, emits exactly the model\'s stream '
+            '(C09_tie_same_stream) -- hence wf_prefix always and WF when finished hold of the code -- and that each generator puts its end event, with the numbers read at entry, also when an '
+            'exception is thrown in at its yield.',
+            '; emitter source regenerated, simulation proof for all programs and schedules'),
+    'C17': (' SECOND TIE (every run): translate/proc_helpers.py regenerates multiprocessing_logging.py, RunningProcess, _call/_call_all and all of run_in_process incl. _run (Gen/ProcHelpers.v); '
+            'Proc/HelperTie.v proves with a big-step interpreter over ALL environments: the listener task is started once and awaited on every exit path after the sentinel, records are handled '
+            'exactly once in order, _call returns exactly one of (value, None)/(None, exc), awaiting never raises for any exit code (given no parent log handler raises: witness kept), the signal '
+            'tables, defaults evaluated in Coq, and the projected trace of _run = Proc/Model.v\'s run_trace for every world (C17_tie_run_simulates_model).',
+            '; helper source regenerated, interpreter theorems over all environments + simulation with the skeleton model'),
+})
+TIE2['C18'] = (TIE2['C18'][0] + ' TASK HALF: translate/taskdone_funs.py regenerates task.py, union.py and thread_exception.py (Gen/TaskDoneFuns.v, try/finally with Python semantics); DoneCb/TaskTie.v proves '
+               'interpreter step = DoneCb/Task.v step for every well-formed state and operation, the whole-history corollary, and that the union closes BOTH helpers on every path (the defect found while '
+               'proving it -- close() re-raising a task callback\'s exception without closing the thread helper -- is repaired, repo e564ce9). The late-registration theorems are generalised to every '
+               'registration that returns before the monitor thread ended (chains of late threads).',
+               TIE2['C18'][1] + '; task half regenerated and proved equal to the model')
 for _k, (_t, _q) in TIE2.items():
     CLAIMED[_k] = dict(CLAIMED[_k], text=CLAIMED[_k]['text'] + _t, technique=CLAIMED[_k]['technique'] + _q)
 
